@@ -59,7 +59,8 @@ pub enum Op {
     Change { path: String, text: String },
     /// one of the eight request kinds; `offset` is a byte offset into the text the client
     /// believes the document has (converted to an LSP position by the independent mapper);
-    /// for InlayHint the range is the whole document
+    /// for InlayHint the offset selects the range: 0 the whole document, an even offset the
+    /// part before it, an odd offset the part behind it
     Request { kind: ReqKind, path: String, offset: u32 },
     /// $/cancelRequest for the request issued by op number `op`
     Cancel { op: usize },
